@@ -1430,6 +1430,16 @@ impl VisitMut for Norm {
                     "retain" | "retain_mut" if mc.args.len() == 1 => {
                         // N8: V.retain(|p| B) / V.retain_mut(|p| B) => index loop with the same visiting order and the same survivors
                         let is_mut = mc.method == "retain_mut";
+                        // N18b: an early `return V;` at the end of an else-less `if` at the top level of the closure body is the value of
+                        // that branch: `S; if c { A; return V; } R; T` => `S; if c { A; V } else { R; T }`
+                        if let Expr::Closure(c) = &mut mc.args[0] {
+                            if body_has_return(&c.body) {
+                                if let Some(nb) = elim_closure_returns(&c.body) {
+                                    *c.body = nb;
+                                    self.log("N18b-closure-early-return", sp);
+                                }
+                            }
+                        }
                         if let Expr::Closure(c) = &mc.args[0] {
                             if c.inputs.len() == 1 && !body_has_return(&c.body) {
                                 let v = &mc.receiver;
@@ -2189,6 +2199,47 @@ pub fn needed_lets(slice: &[Stmt], ctx: &[Local], params: &[String]) -> Vec<Loca
 
 /// N11: keep a contiguous statement range of the top-level block, named by two anchor strings
 /// (substring match on the token text of a statement, whitespace-insensitive).
+/// N18b: see the retain rule
+fn elim_closure_returns(body: &Expr) -> Option<Expr> {
+    fn elim(stmts: &[Stmt]) -> Option<Vec<Stmt>> {
+        for (i, st) in stmts.iter().enumerate() {
+            if let Stmt::Expr(Expr::If(ifx), _) = st {
+                if ifx.else_branch.is_none() {
+                    if let Some(Stmt::Expr(Expr::Return(r), Some(_))) = ifx.then_branch.stmts.last() {
+                        let n = ifx.then_branch.stmts.len();
+                        let prefix = &ifx.then_branch.stmts[..n - 1];
+                        let prefix_clean = prefix.iter().all(|s| !body_has_return(&Expr::Block(ExprBlock { attrs: vec![], label: None, block: Block { brace_token: Default::default(), stmts: vec![s.clone()] } })));
+                        if let (Some(v), true) = (&r.expr, prefix_clean) {
+                            let rest = elim(&stmts[i + 1..])?;
+                            if !matches!(rest.last(), Some(Stmt::Expr(_, None))) {
+                                return None;
+                            }
+                            let cond = &ifx.cond;
+                            let new_if: Expr = parse_quote!(if #cond { #(#prefix)* #v } else { #(#rest)* });
+                            let mut out: Vec<Stmt> = stmts[..i].to_vec();
+                            out.push(Stmt::Expr(new_if, None));
+                            return Some(out);
+                        }
+                    }
+                }
+            }
+            let as_block = Expr::Block(ExprBlock { attrs: vec![], label: None, block: Block { brace_token: Default::default(), stmts: vec![st.clone()] } });
+            if body_has_return(&as_block) {
+                return None;
+            }
+        }
+        Some(stmts.to_vec())
+    }
+    if let Expr::Block(b) = body {
+        if b.label.is_none() {
+            let ns = elim(&b.block.stmts)?;
+            let nb: Expr = parse_quote!({ #(#ns)* });
+            return Some(nb);
+        }
+    }
+    None
+}
+
 pub fn slice_block(b: &Block, sl: &Value) -> std::result::Result<Block, String> {
     let norm = |s: &str| s.chars().filter(|c| !c.is_whitespace()).collect::<String>();
     let from = sl["from"].as_str().map(norm);
